@@ -16,6 +16,7 @@ import (
 	"strconv"
 	"strings"
 	"sync/atomic"
+	"syscall"
 	"testing"
 	"time"
 
@@ -150,6 +151,7 @@ type state struct {
 	inShrink bool
 	execN    int
 
+	noExtra   bool
 	execStart atomic.Int64
 	curRec    atomic.Value
 	start     time.Time
@@ -158,11 +160,31 @@ type state struct {
 // watchdog: a single execution that exceeds the cap is reported as inconclusive (a hang
 // is not a violation of the properties claimed here); the process saves the record and
 // its goroutine stacks and ends, so that the other workers' evidence stays usable.
+func cpuSeconds() float64 {
+	var ru syscall.Rusage
+	if syscall.Getrusage(syscall.RUSAGE_SELF, &ru) != nil {
+		return 0
+	}
+	return float64(ru.Utime.Sec+ru.Stime.Sec) + float64(ru.Utime.Usec+ru.Stime.Usec)/1e6
+}
+
+// The cap is on CPU time consumed by this process since the execution started (wall time
+// would fire on a merely overloaded machine), with a wall-clock backstop ten times as long.
 func (s *state) watchdog(limit time.Duration) {
+	var curStart int64
+	var cpuAtStart float64
 	for {
 		time.Sleep(2 * time.Second)
 		st := s.execStart.Load()
-		if st == 0 || time.Since(time.Unix(0, st)) < limit {
+		if st == 0 {
+			curStart = 0
+			continue
+		}
+		if st != curStart {
+			curStart, cpuAtStart = st, cpuSeconds()
+			continue
+		}
+		if cpuSeconds()-cpuAtStart < limit.Seconds() && time.Since(time.Unix(0, st)) < 10*limit {
 			continue
 		}
 		if rec := s.curRec.Load(); rec != nil {
@@ -174,7 +196,8 @@ func (s *state) watchdog(limit time.Duration) {
 		n := runtime.Stack(buf, true)
 		os.WriteFile(filepath.Join(s.outDir, "watchdog-stacks.txt"), buf[:n], 0o644)
 		s.part.Inconclusive["watchdog_execution_cap"]++
-		fmt.Printf("WATCHDOG: one execution exceeded %v; record saved, worker stops (inconclusive)\n", limit)
+		fmt.Printf("WATCHDOG: one execution exceeded %v of CPU time; record saved, worker stops (inconclusive)\n", limit)
+		s.noExtra = true // the engine is still running on the test goroutine: do not call into it
 		s.writePart(s.start)
 		os.Exit(0)
 	}
@@ -431,7 +454,7 @@ func (s *state) recordViolation(recJSON []byte, v Violation) {
 
 func (s *state) writePart(start time.Time) {
 	s.part.WallS = time.Since(start).Seconds()
-	if s.eng.Extra != nil {
+	if s.eng.Extra != nil && !s.noExtra {
 		s.part.Extra = s.eng.Extra()
 	}
 	b, _ := json.Marshal(s.part)
